@@ -44,6 +44,9 @@ type UEChoice struct {
 	SSCMode     int    `json:"ssc_mode"`
 	DNN         string `json:"dnn"` // "" absent in the accept
 	ReleaseCause int   `json:"release_cause"`
+	// ForbiddenTACs: when a Mobility Restriction List is sent it forbids this many tracking areas of the serving
+	// PLMN (TS 38.413 9.3.1.85: up to 4096 per PLMN); a few hundred make the message 1..2 kilobytes long
+	ForbiddenTACs int `json:"forbidden_tacs,omitempty"`
 }
 
 // Optional downlink information elements, placed where TS 38.413 allows them.
